@@ -169,6 +169,31 @@ def run(ctx, progs):
         if "mmap::GuestMemoryMmap" in prog.adts:
             hits, leaves, visited = c10.deep_freeze(prog, "mmap::GuestMemoryMmap")
             ctx.ob("R11.4.snapshot_immutable", "mmap::GuestMemoryMmap", not hits, "", f"no interior mutability reachable from the published map type ({len(visited)} types walked): a snapshot cannot change under its holder")
+        # ------------------------------------------------------------ R11.5 in-crate updaters derive under the lock
+        # a function of the crate that itself publishes (calls replace / a sibling publisher) and also takes a snapshot of the
+        # replaceable memory must take that snapshot AFTER it holds the update lock: a map derived from a snapshot taken before
+        # lock() overwrites whatever another updater published in between (a lost replacement)
+        n_pub = n_both = 0
+        for b in prog.bodies:
+            if b.kind != "Fn" and b.kind != "AssocFn":
+                continue
+            fam = prog.family(b)
+            pubs = [(fb, c) for fb in fam for c in fb.calls()
+                    if (canon(c.target or "").startswith(EXCL + "::") and c.t.get("callee_local")) or WRITERS.search(canon(c.target or ""))]
+            if not pubs or b.self_adt == EXCL:
+                continue
+            n_pub += 1
+            locks = [c for c in b.calls() if re.search(r"GuestMemoryAtomic::(lock|try_lock)$|Mutex::(lock|try_lock)$", canon(c.target or ""))]
+            snaps = [c for c in b.calls() if re.search(r"GuestAddressSpace::memory$|GuestMemoryAtomic::load$", canon(c.target or "")) or LOADS.search(canon(c.target or ""))]
+            if not snaps:
+                continue
+            n_both += 1
+            for c in snaps:
+                ok = any(b.pos_dominates(l.pos, c.pos) for l in locks)
+                ctx.ob("R11.5.derive_under_lock", f"{b.key}|{canon(c.target).split('::')[-1]}", ok, c.where(),
+                       "a function that publishes a new map takes its snapshot of the current map only after acquiring the update lock"
+                       + ("" if ok else " — here the snapshot is taken before (or without) lock(): another updater's replacement in between is overwritten"))
+        ctx.ob("R11.5.scan", "all bodies", True, "", f"{n_pub} function(s) outside the exclusive guard publish a map; {n_both} of them also take a snapshot")
         # ------------------------------------------------------------ R11.6 trivial address spaces
         n = 0
         for b in prog.bodies:
